@@ -117,6 +117,8 @@ static spif_cmp_t va_comp(spif_obj_t a, spif_obj_t b)
  *   (a) the element at source slot vg_k, if it is inside the moved range, arrives at its new slot;
  *   (b) destination slot vg_k, if inside the range, receives the element the real call puts there;
  *   (c) destination slot vg_k, if outside the range, keeps its value.
+ * memmove additionally asserts that source and destination lie in the same object (all uses in
+ * array.c shift slots inside self->items).
  * The real functions preserve/establish that for every slot; vg_k is arbitrary, so postconditions
  * stated through vg_k are the universally quantified ones. */
 #ifdef VERIF_REALLOC_ELEM_T
@@ -126,22 +128,21 @@ void *memmove(void *dst, const void *src, size_t n)
     if (n == 0) return dst;
     __CPROVER_assert(__CPROVER_r_ok(src, n), "memmove: source readable");
     __CPROVER_assert(__CPROVER_w_ok(dst, n), "memmove: destination writable");
+    __CPROVER_assert(__CPROVER_same_object(src, dst), "memmove model: source and destination in one slot array");
     __CPROVER_assert(n % sizeof(va_T) == 0 && __CPROVER_POINTER_OFFSET(src) % sizeof(va_T) == 0 &&
                      __CPROVER_POINTER_OFFSET(dst) % sizeof(va_T) == 0, "memmove: whole aligned slots");
     size_t so = __CPROVER_POINTER_OFFSET(src) / sizeof(va_T), d_o = __CPROVER_POINTER_OFFSET(dst) / sizeof(va_T);
     size_t ne = n / sizeof(va_T), dn = __CPROVER_OBJECT_SIZE(dst) / sizeof(va_T);
-    va_T *sb = (va_T *) src - so, *db = (va_T *) dst - d_o;
-    va_T a_val, b_val, c_val;
-    _Bool a_in = (vg_k >= so && vg_k < so + ne);
-    _Bool b_in = (vg_k >= d_o && vg_k < d_o + ne);
-    _Bool c_in = (!b_in && vg_k < dn);
-    if (a_in) a_val = sb[vg_k];
-    if (b_in) b_val = sb[vg_k - d_o + so];
-    if (c_in) c_val = db[vg_k];
+    va_T *db = (va_T *) dst - d_o;                       /* slot 0 of the array */
+    _Bool a_in = (vg_k >= so && vg_k < so + ne);         /* (a) source slot vg_k moves      */
+    _Bool b_in = (vg_k >= d_o && vg_k < d_o + ne);       /* (b) destination slot vg_k is hit */
+    _Bool c_in = (!b_in && vg_k < dn);                   /* (c) destination slot vg_k stays  */
+    va_T k_val, b_val;
+    if (a_in || c_in) k_val = db[vg_k];
+    if (b_in) b_val = db[vg_k - d_o + so];
     __CPROVER_havoc_object(db);
-    if (a_in) db[vg_k - so + d_o] = a_val;
-    if (b_in) db[vg_k] = b_val;
-    if (c_in) db[vg_k] = c_val;
+    if (a_in) db[vg_k - so + d_o] = k_val;
+    if (b_in) db[vg_k] = b_val; else if (c_in) db[vg_k] = k_val;
     return dst;
 }
 void *memset(void *dst, int c, size_t n)
